@@ -257,6 +257,8 @@ def main(run, tier):
     run.floor = 300
     for f in ('calmjs.parse.parsers.es5', 'calmjs.parse.asttypes', 'calmjs.parse.lexers.es5'):
         run.function(f, scratch.sha256_file(scratch.module_path(f))[:16])
+    from . import parsefwd
+    parsefwd.add(run, tier)
     action_obligations(run, g, shapes)
     family_obligations(run, g)
     conflict_obligations(run)
